@@ -93,7 +93,7 @@ impl anstyle_parse::Perform for WinconCapture {
     fn csi_dispatch(
         &mut self,
         params: &anstyle_parse::Params,
-        _intermediates: &[u8],
+        intermediates: &[u8],
         ignore: bool,
         action: u8,
     ) {
@@ -101,6 +101,10 @@ impl anstyle_parse::Perform for WinconCapture {
             return;
         }
         if action != b'm' {
+            return;
+        }
+        // Private sequences, like xterm's `CSI > 4 ; 2 m`, are not SGR
+        if !intermediates.is_empty() {
             return;
         }
 
